@@ -209,6 +209,20 @@ def _set_elem_type(sy, base, enum):
         sy.placeholder_ty = {}
 
 
+def _predicate(prog, an, pterm, elem):
+    """the predicate applied to `elem`: a closure body or a function item (`position(Chunk::is_end_of_message)`)"""
+    p0 = strip(pterm)
+    if p0[0] == "fn":
+        return ("call", p0[1], (elem,), ("q", 2))
+    ci = closure_info(prog, an, p0)
+    if not ci:
+        return None
+    rets = closure_ret(prog, ci[0])
+    if len(rets) != 1:
+        return None
+    return _subst(subst_upvars(rets[0], ci[1]), ("carg", 0), elem)
+
+
 QUANT = {"Iterator::position": ("none", False), "Iterator::find": ("none", False), "Iterator::any": ("false", False),
          "Iterator::all": ("true", True), "Iterator::rposition": ("none", False)}
 
@@ -256,17 +270,12 @@ def forall_facts(prog, an, sy, target):
         if ps is None:
             continue
         base, lo, hi, enum, maps = ps
-        ci = closure_info(prog, an, strip(an.terms.operand(t["args"][1])))
-        if not ci:
-            continue
-        rets = closure_ret(prog, ci[0])
-        if len(rets) != 1:
-            continue
-        pred = subst_upvars(rets[0], ci[1])
         elem = _apply_maps(prog, an, ELEM, maps)
         if elem is None:
             continue
-        pred = _subst(pred, ("carg", 0), elem)
+        pred = _predicate(prog, an, an.terms.operand(t["args"][1]), elem)
+        if pred is None:
+            continue
         _set_elem_type(sy, base, enum)
         try:
             ats = sy.bool_atoms(pred, positive)
@@ -333,16 +342,12 @@ def row_rewrites(prog, an, sy):
         if ps is None:
             continue
         base, lo, hi, enum, maps = ps
-        ci = closure_info(prog, an, strip(an.terms.operand(t["args"][1])))
-        if not ci:
-            continue
-        rets = closure_ret(prog, ci[0])
-        if len(rets) != 1:
-            continue
         elem = _apply_maps(prog, an, ELEM, maps)
         if elem is None:
             continue
-        pred = _subst(subst_upvars(rets[0], ci[1]), ("carg", 0), elem)
+        pred = _predicate(prog, an, an.terms.operand(t["args"][1]), elem)
+        if pred is None:
+            continue
         _set_elem_type(sy, base, enum)
         try:
             pos_ats = _names(sy, sy.bool_atoms(pred, True), enum, "arg90")
